@@ -164,6 +164,16 @@ func execOp(line string) {
 	case "swrite":
 		emit(line, safely(func() string { return implSwrite(t) }))
 
+	case "pubcrc":
+		emit(line, safely(func() string {
+			id, _ := strconv.ParseUint(t[1], 10, 32)
+			rw := getDialectRW("common").GetMessage(uint32(id))
+			if rw == nil {
+				return "none"
+			}
+			return fmt.Sprint(rw.CRCExtra())
+		}))
+
 	case "nwrite":
 		emit(line, safely(func() string { return implNwrite(t) }))
 
